@@ -334,14 +334,14 @@ def register3(E):
         if ty is None: raise EngineError('ordering of ' + repr(x))
         if op in ('max', 'min'):
             f = e._find_impl('cmp', 'Ord', ty, 2)
-            if f is None: raise EngineError('no Ord::cmp for ' + ty)
-            o = e.call_mir(f, [Ref([a[0]], 0), Ref([a[1]], 0)]).v
+            o = e.call_mir(f, [Ref([a[0]], 0), Ref([a[1]], 0)]).v if f is not None else e.cmp3(a[0], a[1])        # std wrappers (Reverse, ..): structural
             return (a[1] if o != 'Greater' else a[0]) if op == 'max' else (a[0] if o != 'Greater' else a[1])
         f = e._find_impl('partial_cmp', 'PartialOrd', ty, 2)
-        if f is None: raise EngineError('no PartialOrd::partial_cmp for ' + ty)
-        r = e.call_mir(f, [a[0] if isinstance(a[0], Ref) else Ref([a[0]], 0), a[1] if isinstance(a[1], Ref) else Ref([a[1]], 0)])
-        if r.v != 'Some': return False
-        o = r.f[0].v
+        if f is None: o = e.cmp3(a[0], a[1])
+        else:
+            r = e.call_mir(f, [a[0] if isinstance(a[0], Ref) else Ref([a[0]], 0), a[1] if isinstance(a[1], Ref) else Ref([a[1]], 0)])
+            if r.v != 'Some': return False
+            o = r.f[0].v
         return {'lt': o == 'Less', 'le': o != 'Greater', 'gt': o == 'Greater', 'ge': o != 'Less'}[op]
     @R(r'^(std::cmp::)?Ordering::(then|then_with|is_eq|is_ne|is_lt|is_le|is_gt|is_ge|reverse)')
     def _(e, c, a):
